@@ -35,6 +35,10 @@ pub enum G {
     Method(u8),
     Not(Box<G>),
     Any(Vec<G>),
+    /// `fn_guard(|ctx| ctx.app_data::<Marker>() == Some(v))`: the innermost Marker registration
+    /// that is visible when the guard runs (a scope's / resource's own data is injected when its
+    /// service is called, i.e. after its own guards but before the guards of its routes)
+    DataIs(u32),
 }
 
 #[derive(Debug, Clone, Serialize, Deserialize, PartialEq, Eq, Hash)]
@@ -86,6 +90,10 @@ fn mk_guard(g: &G) -> Box<dyn Guard> {
         G::Header(v) => Box::new(guard::Header("x-g", XG[*v as usize % 2])),
         G::Host(h) => Box::new(guard::Host(HOSTS[*h as usize % 2])),
         G::Method(m) => Box::new(guard::Method(Method::from_bytes(METHODS[*m as usize % 3].as_bytes()).unwrap())),
+        G::DataIs(v) => {
+            let v = *v;
+            Box::new(guard::fn_guard(move |ctx| ctx.app_data::<Marker>().map(|m| m.0) == Some(v)))
+        }
         G::Not(inner) => Box::new(guard::Not(GuardBox(mk_guard(inner)))),
         G::Any(list) => {
             let mut it = list.iter();
@@ -205,13 +213,14 @@ struct Rq<'a> {
     host: Option<&'a str>,
 }
 
-fn eval_guard(g: &G, r: &Rq) -> bool {
+fn eval_guard(g: &G, r: &Rq, marker: Option<u32>) -> bool {
     match g {
         G::Header(v) => r.xg == Some(XG[*v as usize % 2]),
         G::Host(h) => r.host == Some(HOSTS[*h as usize % 2]),
         G::Method(m) => r.method == METHODS[*m as usize % 3],
-        G::Not(i) => !eval_guard(i, r),
-        G::Any(l) => l.iter().any(|g| eval_guard(g, r)),
+        G::DataIs(v) => marker == Some(*v),
+        G::Not(i) => !eval_guard(i, r, marker),
+        G::Any(l) => l.iter().any(|g| eval_guard(g, r, marker)),
     }
 }
 
@@ -227,7 +236,7 @@ fn route_level(children: &[Node], default: Option<u32>, app_default: Option<u32>
         match c {
             Node::Scope { prefix, guards, data, default: d2, children } => {
                 if let Some((len, spans)) = c10::model_match(prefix, true, rem.as_bytes()) {
-                    if guards.iter().all(|g| eval_guard(g, r)) {
+                    if guards.iter().all(|g| eval_guard(g, r, marker)) {
                         for (i, (a, b)) in spans.iter().enumerate() {
                             mi.push((format!("p{}", base + i), rem[*a..*b].to_string()));
                         }
@@ -249,7 +258,7 @@ fn route_level(children: &[Node], default: Option<u32>, app_default: Option<u32>
                 };
                 if let Some((_len, spans)) = c10::model_match(p, false, rem.as_bytes()) {
                     let m_ok = route.method.is_none_or(|m| r.method == METHODS[m as usize % 3]);
-                    if m_ok && route.guards.iter().all(|g| eval_guard(g, r)) {
+                    if m_ok && route.guards.iter().all(|g| eval_guard(g, r, marker)) {
                         for (i, (a, b)) in spans.iter().enumerate() {
                             mi.push((format!("p{}", base + i), rem[*a..*b].to_string()));
                         }
@@ -270,14 +279,14 @@ fn route_level(children: &[Node], default: Option<u32>, app_default: Option<u32>
                     c10::model_match(p, false, rem.as_bytes())
                 });
                 if let Some((_len, spans)) = hit {
-                    if guards.iter().all(|g| eval_guard(g, r)) {
+                    if guards.iter().all(|g| eval_guard(g, r, marker)) {
                         for (i, (a, b)) in spans.iter().enumerate() {
                             mi.push((format!("p{}", base + i), rem[*a..*b].to_string()));
                         }
                         let marker = data.or(marker);
                         for rt in routes {
                             let m_ok = rt.method.is_none_or(|m| r.method == METHODS[m as usize % 3]);
-                            if m_ok && rt.guards.iter().all(|g| eval_guard(g, r)) {
+                            if m_ok && rt.guards.iter().all(|g| eval_guard(g, r, marker)) {
                                 mi.sort();
                                 return Routed::Handler { id: rt.id, marker, mi: mi.clone() };
                             }
@@ -506,7 +515,12 @@ pub fn run_case(_cfg: &RunCfg, case: &Case) -> Verdict {
 // ------------------------------------------------------------------------------------------
 
 fn guard_strategy() -> impl Strategy<Value = G> {
-    let leaf = prop_oneof![(0u8..2).prop_map(G::Header), (0u8..2).prop_map(G::Host), (0u8..3).prop_map(G::Method)];
+    let leaf = prop_oneof![
+        3 => (0u8..2).prop_map(G::Header),
+        3 => (0u8..2).prop_map(G::Host),
+        3 => (0u8..3).prop_map(G::Method),
+        2 => prop_oneof![Just(0u32), 1u32..4, 50u32..53].prop_map(G::DataIs),
+    ];
     leaf.prop_recursive(2, 4, 2, |inner| prop_oneof![inner.clone().prop_map(|g| G::Not(Box::new(g))), proptest::collection::vec(inner, 1..3).prop_map(G::Any)])
 }
 
@@ -518,7 +532,7 @@ fn resource_strategy(ids: std::ops::Range<u32>) -> impl Strategy<Value = Node> {
     (
         proptest::collection::vec(simple_pat(true), 1..3),
         proptest::collection::vec(guard_strategy(), 0..2),
-        proptest::option::weighted(0.3, 1u32..50),
+        proptest::option::weighted(0.3, 1u32..4),
         proptest::collection::vec((proptest::option::weighted(0.6, 0u8..3), proptest::collection::vec(guard_strategy(), 0..2), ids.clone()), 0..3),
         proptest::option::weighted(0.2, ids),
     )
@@ -559,7 +573,7 @@ fn node_strategy(depth: u32) -> BoxedStrategy<Node> {
         2 => (
             simple_pat(false),
             proptest::collection::vec(guard_strategy(), 0..2),
-            proptest::option::weighted(0.4, 50u32..100),
+            proptest::option::weighted(0.4, 50u32..53),
             proptest::option::weighted(0.3, 10_000u32..20_000),
             proptest::collection::vec(node_strategy(depth - 1), 0..4),
         )
@@ -594,7 +608,7 @@ pub fn run(cfg: &RunCfg) -> Report {
     ];
     runner::replay_pinned(&mut rep, cfg, &replay);
     runner::replay_regress(&mut rep, cfg, &replay);
-    explore(&mut rep, cfg, "tables", cfg.cases(8_000, 160_000), case_strategy, |c| run_case(cfg, c));
+    explore(&mut rep, cfg, "tables", cfg.cases(80_000, 1_600_000), case_strategy, |c| run_case(cfg, c));
     rep
 }
 
